@@ -109,6 +109,14 @@ def gen_flags(g, count):
         files = base_files(g, book, log)
         v = r.choice(FLAG_FUZZ)
         shape = n % 12
+        if shape in (0, 1, 8, 9) and r.random() < 0.5:
+            # near misses of names that do occur: another letter case, a prefix, a suffix, surrounding blanks
+            pool = [i for _, ings in book for i, _ in ings] + [f for _, ents, _ in log for f, _ in ents] + [nm for nm, _ in book]
+            if pool:
+                nm = r.choice(pool).decode('utf-8', 'replace')
+                v = r.choice([nm.swapcase(), nm.upper(), nm.capitalize(), nm[:max(1, len(nm) // 2)], nm[len(nm) // 2:], ' ' + nm, nm + ' ', nm + '/', nm.title()])
+                if not v or v.startswith('-'):
+                    v = 'X' + v
         path, args, s, gf = ['reg'], (), {}, {}
         if shape == 0:
             s = {'singleFood': v}
